@@ -329,6 +329,7 @@ type Contract struct {
 	Lemma      bool
 	LemmaSteps []*Clause
 	Allocates  bool
+	Logged     bool // modular calls of this function are appended to the ghost call log by the caller
 }
 
 // GuardSpec: "guarded <mutex lvalue> : "family-prefix", ..." — every load/store of a family with one of
@@ -373,7 +374,7 @@ type ContractFile struct {
 var clauseKeywords = map[string]bool{
 	"spec": true, "axiom": true, "devirt": true, "opaque": true, "func": true, "property": true, "returns": true,
 	"config": true, "requires": true, "ensures": true, "modifies": true, "loop": true, "assert": true,
-	"trusted": true, "inline": true, "let": true, "lemma": true, "step": true, "allocates": true, "assume": true, "guarded": true, "split": true, "partial": true, "retsplit": true,
+	"trusted": true, "inline": true, "let": true, "lemma": true, "step": true, "allocates": true, "logged": true, "assume": true, "guarded": true, "split": true, "partial": true, "retsplit": true,
 }
 
 func parseContractFile(path, pkgPath string) (*ContractFile, error) {
@@ -679,6 +680,8 @@ func parseContractFile(path, pkgPath string) (*ContractFile, error) {
 				cur.Inline = true
 			case "allocates":
 				cur.Allocates = true
+			case "logged":
+				cur.Logged = true
 			case "let":
 				k := strings.Index(rc.text, " = ")
 				if k < 0 {
